@@ -68,7 +68,7 @@ func (i *interpreter) errString(fr *frame, e iface) string {
 	if m == nil {
 		return fmt.Sprintf("<error %v>", e.t)
 	}
-	fn := i.prog.MethodValue(m)
+	fn := i.methodValue(m)
 	r := call(i, fr, 0, fn, []value{e.v})
 	if s, ok := r.(string); ok {
 		return s
@@ -326,7 +326,16 @@ func init() {
 		},
 		"math.Mod": func(fr *frame, a []value) value {
 			if isSym(a[0]) || isSym(a[1]) {
-				return fr.i.modStub(asTerm(a[0]), asTerm(a[1]))
+				x, y := asTerm(a[0]), asTerm(a[1])
+				if x.k == sReal || y.k == sReal {
+					x, y = toReal(x), toReal(y)
+					// Mod(x, 0) is NaN: outside the exact-grid domain
+					if fr.i.x.decide(mkBool("(= " + y.t + " 0)")) {
+						panic(unsupported("math.Mod by zero (NaN) in exact-grid mode"))
+					}
+					return sym{sReal, 0, realMod(x.t, y.t)}
+				}
+				return fr.i.modStub(x, y)
 			}
 			return math.Mod(a[0].(float64), a[1].(float64))
 		},
@@ -577,4 +586,15 @@ func runeMap(fr *frame, name string, f func(rune) rune, r value) value {
 }
 
 
-func (i *interpreter) modStub(x, m sym) value { panic(unsupported("math.Mod on symbolic operands")) }
+// modStub is math.Mod in FP mode: C fmod from the IEEE remainder (fp.rem rounds the quotient
+// to nearest, fmod truncates it): with r = rem(|x|,|y|), fmod(|x|,|y|) = r < 0 ? r+|y| : r
+// (exact: the result of fmod is always representable), and the sign is that of x.
+func (i *interpreter) modStub(x, m sym) value {
+	if x.k != sF64 || m.k != sF64 {
+		panic(unsupported("math.Mod on non-float symbolic operands"))
+	}
+	ax, am := "(fp.abs "+x.t+")", "(fp.abs "+m.t+")"
+	r := "(fp.rem " + ax + " " + am + ")"
+	t := "(ite (fp.lt " + r + " " + f64Lit(0) + ") (fp.add RNE " + r + " " + am + ") " + r + ")"
+	return sym{sF64, 0, "(ite (fp.isNegative " + x.t + ") (fp.neg " + t + ") " + t + ")"}
+}
